@@ -2,6 +2,7 @@ import QV.C14.Lemmas
 import QV.C14.Complex
 import QV.C14.Lift
 import QV.C14.Term
+import QV.C14.TermAll
 /-
 C14 — Standard gate unitaries match the Quil specification.
 
@@ -88,6 +89,65 @@ theorem C14_lift_eq_spec {M : Mat K} {qs : List Nat} {n : Nat} (hn : n ≤ 5)
     liftedGateMatrix M qs n defaultFuel = .ok (liftSpec M qs n) := by
   obtain ⟨R, hR⟩ := liftedGateMatrix_of_shadow (K := K) hMr (shadow_ok_of_valid hn hv)
   rw [hR, liftedGateMatrix_eq_liftSpec hMr hMc hR]
+
+/-- **(b) Lifting, ALL `n`, total correctness.**  For every `n`, every valid placement `qs` (distinct qubits
+`< n`, any number of them), every `2^|qs| × 2^|qs|` matrix `M` and any fuel of at least two sweeps,
+`lifted_gate_matrix` returns — no panic, no endless loop — and returns `liftSpec M qs n`.
+Termination is by a variant argument, not by enumeration: the left-to-right sweep leaves every listed qubit at
+or above its slot and in the right relative order, and the following right-to-left sweep pulls them down one
+by one, displacing only unlisted qubits, so the loop exits within two sweeps (`TermAll.lean`). -/
+theorem C14_lift_eq_spec_alln {M : Mat K} {qs : List Nat} {n : Nat} (fuel : Nat)
+    (hv : validPlacement qs n = true) (hMr : M.r = 2 ^ qs.length) (hMc : M.c = 2 ^ qs.length) :
+    liftedGateMatrix M qs n (fuel + 2) = .ok (liftSpec M qs n) := by
+  obtain ⟨R, hR⟩ := liftedGateMatrix_of_shadow (K := K) hMr (shadow_ok_alln hv fuel)
+  rw [hR, liftedGateMatrix_eq_liftSpec hMr hMc hR]
+
+/-- **C14 for all `n`**: as `C14_toUnitary_eq_spec` below, without the bound `n ≤ 5`. -/
+theorem C14_toUnitary_eq_spec_alln (name : String) (θs : List K) (U : Mat K) (qs : List Nat) (n : Nat)
+    (hspec : specMatrix name θs = some U) (harity : U.r = 2 ^ qs.length)
+    (hv : validPlacement qs n = true) :
+    toUnitary0 name (θs.map Param.num) (qs.map Qubit.fixed) n = .ok (.ok (liftSpec U qs n)) := by
+  have hfix : ∀ l : List Nat, fixedQubits (l.map Qubit.fixed) = .ok l := by
+    intro l
+    induction l with
+    | nil => rfl
+    | cons q l ih => simp only [List.map_cons, fixedQubits, ih]; rfl
+  have hbase : baseMatrix name (θs.map Param.num) = .ok U := by
+    have := C14_table_eq_spec name θs
+    rw [hspec] at this
+    cases hb : baseMatrix name (θs.map Param.num) with
+    | ok m => rw [hb] at this; simp only [Except.toOption] at this; injection this with this; rw [this]
+    | error e => rw [hb] at this; simp [Except.toOption] at this
+  obtain ⟨_, hsq⟩ := specMatrix_square hspec
+  unfold toUnitary0
+  rw [hfix, hbase]
+  simp only
+  have := C14_lift_eq_spec_alln (K := K) 14 hv harity (by rw [← hsq]; exact harity)
+  show (liftedGateMatrix U qs n (14 + 2)).bind _ = _
+  rw [this]
+  rfl
+
+/-- non-vacuity beyond the property's range: `CCNOT 9 0 4` on 10 qubits over `ℂ` -/
+example : toUnitary0 (K := ℂ) "CCNOT" [] [Qubit.fixed 9, Qubit.fixed 0, Qubit.fixed 4] 10
+    = .ok (.ok (liftSpec (permGate 3 fun c => 4 * bit c 2 + 2 * bit c 1 + (bit c 0 + bit c 2 * bit c 1) % 2) [9, 0, 4] 10)) :=
+  C14_toUnitary_eq_spec_alln (K := ℂ) "CCNOT" [] _ [9, 0, 4] 10 rfl rfl (by decide)
+
+/-- **Observation outside the property (inputs of this kind are never sent to the real code).**  A repeated qubit
+makes the sweep loop of `permutation_arbitrary` spin for ever: for `CNOT q q` (`1 ≤ q < n`; more generally any
+4×4 matrix on the list `[q, q]`) the model's `lifted_gate_matrix` runs out of EVERY fuel — no sweep panics and the
+exit test can never hold, because two different slots would have to contain the same qubit of a bijective
+arrangement (`sweeps_diverges` states this for any list with a repeated qubit whose window fits).  Hence
+`Gate::to_unitary` on `CNOT 1 1` does not return. -/
+theorem C14_repeated_qubit_diverges (M : Mat K) (q n : Nat) (h1 : 1 ≤ q) (hq : q < n) (fuel : Nat) :
+    liftedGateMatrix M [q, q] n fuel = .outOfFuel :=
+  liftedGateMatrix_repeated_diverges M h1 hq fuel
+
+/-- the same through the model of `Gate::to_unitary`: `CNOT 1 1` on 2 qubits -/
+example : toUnitary0 (K := ℂ) "CNOT" [] [Qubit.fixed 1, Qubit.fixed 1] 2 = .outOfFuel := by
+  have h := C14_repeated_qubit_diverges (K := ℂ)
+    (Mat.ofRows 4 4 [[1, 0, 0, 0], [0, 1, 0, 0], [0, 0, 0, 1], [0, 0, 1, 0]]) 1 2 (le_refl 1) (by norm_num) defaultFuel
+  simp only [toUnitary0, fixedQubits, Except.map, baseMatrix, constTable]
+  rw [h]; rfl
 
 /-- **C14, assembled.**  For every standard gate `name` with parameters `θs` (any values) that the Quil
 specification defines (`specMatrix name θs = some U`), applied to the right number of distinct fixed qubits
